@@ -23,6 +23,6 @@ CONSTANTS
  CopySchedById = FALSE
  MaxOpens = 2
 CONSTRAINT Bound
-INVARIANTS RootIsReplay UniqueLive HeldAreReplays EveryBoltIsAState Durable NewestLoads BoltFilesOnDisk RootFilesOnDisk RootFilesProtected NoOrphansWhenQuiescent RollbackOK
+INVARIANTS RootIsReplay UniqueLive HeldAreReplays EveryBoltIsAState Durable NewestLoads BoltFilesOnDisk RootFilesOnDisk RootFilesProtected NoOrphansWhenQuiescent RollbackOK RetentionWhenQuiescent NewNamesUnused
 PROPERTIES LayoutStutters ReaderStable
 CHECK_DEADLOCK FALSE
